@@ -123,8 +123,8 @@ PROPS = {
     "C07": {
         "level": "exploration",
         "jobs": {
-            "quick": [job("sim", "mux", "verif", "c07", 8)],
-            "thorough": [job("sim", "mux", "verif", "c07", 16)],
+            "quick": [job("sim", "mux", "verif", "c07", 8), job("thr", "mux", "verif", "c07", 4, extra=["--engine", "thr"])],
+            "thorough": [job("sim", "mux", "verif", "c07", 16), job("thr", "mux", "verif", "c07", 16, extra=["--engine", "thr"])],
         },
         "required_targets": {"any": ['streams_established', 'collision_runs', 'raw_reset_runs', 'raw_bad_connect_runs', 'scripted_rng_runs']},
         "assumptions": COMMON_ASSUMPTIONS + SIM_ASSUMPTIONS + ['flow ids come from a scripted RNG passed to Multiplexor::new_detailed; requests are matched to Connect frames through the unique target host tag'],
